@@ -321,6 +321,7 @@ func Harness_C11_any_command() {
 
 	connA, _ := w.newConn(c11A)
 	connB, _ := w.newConn(c11B)
+	connS, _ := w.newConn(c11S)
 	verif_Quiesce()
 
 	// ---- the command under test --------------------------------------------------------------
@@ -332,6 +333,8 @@ func Harness_C11_any_command() {
 		rw, id = connA, connA.id
 	case c11B:
 		rw, id = connB, connB.id
+	case c11S:
+		rw, id = connS, connS.id
 	default:
 		rw, id = w.newConn(who)
 		verif_Quiesce()
@@ -340,7 +343,7 @@ func Harness_C11_any_command() {
 		MappingID: []string{"pm1", dom.ID, "nope"}[verif_Choose(3)],
 		Code:      code.Code, ListenAddress: "127.0.0.1:7000", TargetAddress: "tcp://127.0.0.1:23", ActivationTTL: 600, MappingTTL: 600,
 		TargetURL: "http://127.0.0.1:3000", Subdomain: "fresh", BaseDomain: "t.net",
-		TunnelID: "tun-9", TargetClientID: []int64{-1, c11A, c11B}[verif_Choose(3)], TargetHost: "example.org", TargetPort: 443,
+		TunnelID: "tun-9", TargetClientID: []int64{-1, c11A, c11B, c11S}[verif_Choose(4)], TargetHost: "example.org", TargetPort: 443,
 		Domain: "example.org", QType: 1, QueryID: "q1", DNSServer: "9.9.9.9:53",
 		BytesSent: int64(verif_Byte()) + 1, BytesReceived: int64(verif_Byte()),
 	}
@@ -357,7 +360,7 @@ func Harness_C11_any_command() {
 		ReceiverId:  string([]byte{verif_Byte(), verif_Byte()}),
 		CommandBody: string(bodyJSON),
 	}
-	fromA, fromB, fromRW := len(connA.Out.Buf), len(connB.Out.Buf), len(rw.Out.Buf)
+	fromA, fromB, fromS, fromRW := len(connA.Out.Buf), len(connB.Out.Buf), len(connS.Out.Buf), len(rw.Out.Buf)
 	w.sm.HandlePacket(&types.StreamPacket{ConnectionID: id, Timestamp: time.Now(), Packet: &packet.TransferPacket{PacketType: ptype, CommandPacket: cmd}})
 	verif_Quiesce()
 
@@ -372,7 +375,16 @@ func Harness_C11_any_command() {
 		// sub-domain name is free, a random name suggestion
 		public := cmd.CommandType == packet.HTTPDomainGetBaseDomains || cmd.CommandType == packet.HTTPDomainCheckSubdomain || cmd.CommandType == packet.HTTPDomainGenSubdomain
 		verif_Assert("C11.unauth.no_success_reply", public || !reply.success)
-		verif_Assert("C11.unauth.reaches_nobody", len(connA.Out.Buf) == fromA && len(connB.Out.Buf) == fromB)
+		verif_Assert("C11.unauth.reaches_nobody", len(connA.Out.Buf) == fromA && len(connB.Out.Buf) == fromB && len(connS.Out.Buf) == fromS)
+	}
+	// (1b) a tunnel-open request goes to the mapping's own target client, for the mapping's listen
+	// client only - whatever target the packet claims
+	rqA, rqB, rqS := w.seen(connA, fromA).tunnelRq, w.seen(connB, fromB).tunnelRq, w.seen(connS, fromS).tunnelRq
+	verif_Assert("C11.tunnel_request.only_to_mapping_target", !rqA && !rqS)
+	verif_Assert("C11.tunnel_request.only_for_listen_client", verif_Implies(rqB, who == c11A && body.MappingID == "pm1"))
+	if who == c11A && cmd.CommandType == packet.SOCKS5TunnelRequestCmd && body.MappingID == "pm1" {
+		verif_Assert("C11.tunnel_request.reaches_target", rqB)
+		verif_Cover("C11.socks5_by_listen_client")
 	}
 	// (2) the victims' objects are untouched unless the requester is a party
 	pm, perr := w.maps.GetPortMapping("pm1")
